@@ -18,7 +18,7 @@ CONSTANTS Ver,          \* "37" | "38" | "39" | "310"
           MaxPrefix,    \* EXTENDED_ARG prefixes per instruction
           Classes,      \* operand classes the environment may emit
           ByteVals,     \* operand bytes
-          Scope,        \* "module" | "shadow" | "fn" (function, first constant None) | "fndoc" (function with a docstring)
+          Scope,        \* "module" | "shadow" | "dup" | "fn" (function, first constant None) | "fndoc" (function with a docstring)
           Emit
 
 D == INSTANCE Decode
@@ -40,9 +40,12 @@ Base ==
      \* scope "shadow": ONE name is a cell and a free variable of the same code object (a class body whose method
      \* uses super() and which reads the enclosing function's own __class__ variable)
      freevars |-> IF Scope = "shadow" THEN <<30>> ELSE <<40>>,
-     consts |-> IF Scope = "fndoc" THEN <<51, 50, 52>> ELSE <<50, 51, 52>>,
+     \* scope "dup": co_consts holds the SAME constant at two positions and both are used (the <=3.9 peephole
+     \* appends a folded default-arguments tuple although an equal tuple is already there)
+     consts |-> IF Scope = "fndoc" THEN <<51, 50, 52>> ELSE IF Scope = "dup" THEN <<50, 51, 50>> ELSE <<50, 51, 52>>,
      name_keys |-> <<110, 111, 112>>, varname_keys |-> <<120, 121>>, cellvar_keys |-> <<130>>,
-     const_keys |-> IF Scope = "fndoc" THEN <<151, 150, 152>> ELSE <<150, 151, 152>>, none_key |-> 150,
+     const_keys |-> IF Scope = "fndoc" THEN <<151, 150, 152>> ELSE IF Scope = "dup" THEN <<150, 151, 150>> ELSE <<150, 151, 152>>,
+     none_key |-> 150,
      \* in scope "fn" the third constant is a string too (a string first used from slot 2, not slot 1)
      const_is_str |-> IF Scope = "fndoc" THEN <<TRUE, FALSE, FALSE>> ELSE IF Scope = "fn" THEN <<FALSE, TRUE, TRUE>>
                       ELSE <<FALSE, TRUE, FALSE>>,
